@@ -1,5 +1,6 @@
 \* design level, thorough: n <= 40, MinBatch scaled to 8, 4 and 1; batch_iter_mut! closures of get_power_series / batch_inversion (C14)
 SPECIFICATION Spec
 CONSTANTS MaxN = 40  MinBatches = {1, 4, 8}  Ops = {"pow", "inv"}  GuardEmpty = TRUE  MaxStates = 40000
+CONSTANTS Threads = {1, 2, 3, 4, 5, 6, 7, 8, 9, 10, 11, 12, 13, 14, 15, 16}  PermRule = "pow2"
 INVARIANT Partition NoRace InBounds Final
 CHECK_DEADLOCK FALSE
